@@ -1,6 +1,7 @@
 import KyupyVerif.Model.Transform
 import KyupyVerif.Model.Substitute
 import KyupyVerif.Model.SubstSem
+import KyupyVerif.Model.ResolveHyp
 /-! Driver extension for C10: the transformation models on one netlist dump.
 
 `xform <op> <names> <dump...>`
@@ -171,6 +172,24 @@ def resolveGenWhy (lib : Lib) : List (String × Bool) → NNet → String
       | none => resolveGenWhy lib rest cur
     else resolveGenWhy lib rest cur
 
+/-- first per-instance clause of `resolveInstB` that fails along the loop (`ok` when it holds; `raise` is NOT a failure of the
+    predicate: it does not contain success) -/
+def resolveInstWhy (lib : Lib) : List (String × Bool) → NNet → String
+  | [], _ => "ok"
+  | key :: rest, cur =>
+    let i := cur.lookup key
+    if i < cur.net.nodes.size then
+      match lib.find (cur.net.node i).kind with
+      | some impl =>
+        if cur.net.io.contains i then "cell-is-port" else if (cur.net.node i).isFork then "cell-is-fork"
+        else if !(noSelfIgnB cur i impl) then "selfIgnored" else if !(addFreshB cur i impl) then "names-fresh"
+        else if !(arityOKB cur i impl) then "arity"
+        else match substitute cur i impl with
+          | some nxt => resolveInstWhy lib rest nxt
+          | none => "ok"
+      | none => resolveInstWhy lib rest cur
+    else resolveInstWhy lib rest cur
+
 def handleResolveOk (args : List String) : String :=
   match splitBlocks args with
   | (hn :: hd) :: libBlocks =>
@@ -180,7 +199,11 @@ def handleResolveOk (args : List String) : String :=
       | _ => none
     " ".intercalate [b01 h.wf, b01 (resolveOKB lib h.keys h), (match resolveCells lib h with | some r => b01 r.wf | none => "-"),
       resolveWhy lib h.keys h, b01 h.wfNoTrail, b01 (resolveGenOKB lib h.keys h),
-      (match resolveCells lib h with | some r => b01 r.wfNoTrail | none => "-"), resolveGenWhy lib h.keys h]
+      (match resolveCells lib h with | some r => b01 r.wfNoTrail | none => "-"), resolveGenWhy lib h.keys h,
+      -- hypotheses of `C10.resolve_run_isSome` (fields 8-12) and the model's success (13), gap-free forks of the model result (14)
+      b01 (forksDenseB h.net), b01 (libOKB lib), b01 (resolveInstB lib h.keys h), resolveInstWhy lib h.keys h,
+      b01 (h.wfNoTrail && forksDenseB h.net && libOKB lib && resolveInstB lib h.keys h), b01 (resolveCells lib h).isSome,
+      (match resolveCells lib h with | some r => b01 (forksDenseB r.net) | none => "-")]
   | _ => "bad-args"
 
 def showMaps : Option (NNet × Ren) → String
